@@ -282,6 +282,12 @@ func genDsytrd(g *vlib.G) {
 	for _, n := range stock {
 		plan = append(plan, cfg{n, stockProf, []family{symFamilies[0], symFamilies[2], symFamilies[3], symFamilies[7]}})
 	}
+	// magnitude ladder (Dsytrd/Dorgtr are scale free; Dsteqr/Dsterf rescale blocks outside [2^-405, 2^510])
+	for _, exp := range ladder(g, -500, -450, -200, 200, 500) {
+		for _, n := range []int{3, 6} {
+			plan = append(plan, cfg{n, profiles[0], []family{scaledFam(symFamilies[0], exp), scaledFam(symFamilies[7], exp)}})
+		}
+	}
 	for _, c := range plan {
 		for _, f := range c.fams {
 			for _, uplo := range []blas.Uplo{blas.Upper, blas.Lower} {
